@@ -11,6 +11,21 @@ open RosedVerif
 
 variable {α : Type} [DecidableEq α] (cx : Ctx α)
 
+/-- close `m = m'` for two monadic programs with the same skeleton: go under equal leading computations
+(`bind_congr`), re-associate, case-split every `if`/`match` on either side as soon as its condition is closed, and
+finish the leaves with `rfl` / `omega` (contradictory branch conditions) / `simp_all` / `grind` -/
+syntax "go_deep" : tactic
+macro_rules
+  | `(tactic| go_deep) => `(tactic|
+      first
+        | rfl
+        | omega
+        | (refine bind_congr (m := R) fun _ => ?_; go_deep)
+        | (simp only [bind_assoc, pure_bind]; go_deep)
+        | (split <;> go_deep)
+        | (simp_all; done)
+        | grind [List.isEmpty_iff])
+
 theorem flatten_map_singleton {β : Type} (ys : List β) : (ys.map fun y => [y]).flatten = ys := by
   induction ys with
   | nil => rfl
